@@ -76,7 +76,7 @@ def rand_case(rng):
     allow_flush = not (v == "1.0" and c == "keep-alive")      # C02's known defect lives there
     for i in range(nw):
         n = rng.choice(SIZES) if rng.random() < 0.97 else 70000
-        kind = "t" if rng.random() < 0.7 else "b"
+        kind = rng.choice(["t", "t", "t", "b", "r", "r"])
         spec = ("e",) if n == 0 else (kind, n, rng.randrange(256))
         total += n
         if i == nw - 1 and rng.random() < 0.4:
@@ -116,6 +116,9 @@ def directed_cases():
     base = {"version": "1.1", "conn": None, "inm": None, "send": "pipelined", "req_headers": ["Accept-Encoding: gzip"]}
     yield dict(base, method="GET", prog=[("write", T)])
     yield dict(base, method="GET", prog=[("write", ("t", 1023, 1))])
+    # incompressible content: the encoded body is larger than the plaintext, it must still be a gzip stream
+    yield dict(base, method="GET", prog=[("write", ("r", 2000, 7))])
+    yield dict(base, method="GET", prog=[("write", ("r", 1024, 8)), ("flush", False), ("write", ("r", 1500, 9))])
     yield dict(base, method="GET", prog=[("write", T), ("flush", False), ("settle",), ("write", T), ("flush", True), ("finish", T)])
     yield dict(base, method="HEAD", prog=[("write", ("t", 5000, 2))])
     yield dict(base, method="GET", prog=[("set", "Vary", "Cookie"), ("set", "Content-Length", "2048"), ("write", ("t", 2048, 3))])
